@@ -42,7 +42,9 @@ class Prop:
                "the outstanding datagrams; the same send loop with a limited writer forwarding to the real socket (partial writes), and the "
                "public Send of a bind whose first sendmmsg fails with EIO (GSO disabled, batch resent from the pooled vector): the plain "
                "socket still sees the batch; ONE dual-stack bind sending to alternating 127.0.0.1 / ::1 / second local IPv6 destinations from one "
-               "goroutine (pooled destination address reused): every datagram arrives at its own destination; validates UdpGso.KernelSpec and the glue around the modelled core)"]
+               "goroutine (pooled destination address reused): every datagram arrives at its own destination; plain UDP sender -> bind without "
+               "UDP_GRO, bursts with empty datagrams in one recvmmsg batch after a longer batch: every non-empty datagram keeps its size, "
+               "bytes and source; validates UdpGso.KernelSpec and the glue around the modelled core)"]
     rule = ("send vectors from one PRNG: equal/shrinking/growing runs, size 1, wireguard-like sizes, runs of 63..66 and 127/128 "
             "equal datagrams, totals crossing the 65507/65527 maximum, capacity exhaustion (cap = len + k*size), short tail then "
             "continuing, control buffer too small, v4/v6, with/without sticky source; receive vectors: GRO trains in receiveIP's "
@@ -232,6 +234,17 @@ class Prop:
     # ---- shrinking --------------------------------------------------------------------------
     def shrink_candidates(self, case):
         k = case.get("kind")
+        if k == "loopback" and case.get("pass") == "rxplain":
+            sc = case.get("script") or []
+            if len(sc) == 2:
+                burst = sc[1]["sizes"]
+                for i in range(len(burst)):
+                    b2 = burst[:i] + burst[i + 1:]
+                    if b2:
+                        c = dict(case)
+                        c["script"], c["sizes"] = [sc[0], {"from": 1, "sizes": b2}], b2
+                        yield c
+            return
         if k == "loopback" and case.get("script"):
             # sequential script: drop steps (the last one is the failing step)
             sc = case["script"]
@@ -290,6 +303,12 @@ class Prop:
     # ---- classification ---------------------------------------------------------------------
     def signature(self, case, f):
         k = case.get("kind")
+        if k == "loopback" and case.get("pass") == "rxplain":
+            sc = case.get("script") or []
+            burst = sc[-1]["sizes"] if sc else (case.get("sizes") or [])
+            if 0 in burst:
+                return "empty-datagram-breaks-plain-receive-batch"
+            return "plain-receive-batch-not-delivered-intact"
         if k == "loopback" and str(case.get("pass", "")).startswith("dual_"):
             sc = case.get("script") or []
             if len(sc) >= 2 and sc[-1]["from"] in (1, 2) and any(st["from"] == 0 for st in sc[:-1]):
